@@ -32,11 +32,15 @@ ASSUMPTIONS = [
     "an unanchored search; the emitted form `a|b` is pinned by the mock schema and by the parser that splits on '|'); "
     "evidence reports pattern_unanchored=true; Literal members are alphabetic words",
     "Literal members are compared as a set on the way back (the emitter sorts them)",
+    "a None default of an Optional parameter cannot be written as a default that validates against its own (non-null) "
+    "property schema; the emitter documents that it is 'inferred as null from the type' (the property is not "
+    "required), so on the way back `Optional[T] = None` and `Optional[T]` without default are the same entry; a None "
+    "marker that *is* emitted as a default is checked (and rejected) by the default-validates conjunct",
 ]
 CUR = {}
 T_KINDS = ("int", "float", "str", "bool", "dict", "listbare", "optional", "literal")
 D_KINDS = ("absent", "int", "negint", "zero", "float", "negfloat", "smallfloat", "bool", "str", "strspace", "strtilde",
-           "strdot", "emptystr")
+           "strdot", "emptystr", "none")
 
 
 def streams(ctx):
@@ -168,6 +172,8 @@ def post_json_schema(intermediate_repr, result, OLD):
     got = {"params": deepcopy(back["params"]), "returns": None}
     for d_ in (exp, got):
         for p in d_["params"].values():
+            if p.get("default") == irgen.NONE_STR and (p.get("typ") or "").startswith("Optional["):
+                del p["default"]  # carried by the type (see ASSUMPTIONS): `Optional[T] = None` == not required
             m = literal_members(p["typ"]) if p.get("typ") else None
             if m is not None:
                 pre = "Optional[" if p["typ"].startswith("Optional[") else ""
